@@ -25,7 +25,7 @@ class C41(EngineDCheck):
                    'with max-errors=-1 only the walker replay is done (class suffix _maxerr), so that a defect of that '
                    'mode cannot hide one of the default mode',
                    'explorations cut by the wall cap are not judged']
-    budgets = {'quick': dict(runs=36, wall=55), 'thorough': dict(runs=900, wall=900)}
+    budgets = {'quick': dict(runs=36, wall=45), 'thorough': dict(runs=900, wall=900)}
 
     def gen(self, seed, tier):
         r = Rng(seed, 'c41')
@@ -113,7 +113,9 @@ class C41(EngineDCheck):
                              'transition before terminating ... that\'s OK", status %s) although its actors are blocked for '
                              'ever in the initial state: [%s]' % (r['config'], r['rc'], '; '.join(sorted(W_dl)[0]))))
             elif r['finished'] and not r['reports'] and (W_dl or W_as):
-                viol.append(('missed_' + red, '%s finished with exit status %s and no report, but a seeded walk reaches %s' %
+                tag = red + ('_befs' if r['algo'] == 'BeFS' and red != 'udpor' else '') + \
+                    ('_uniform' if r['strategy'] == 'uniform' else '')
+                viol.append(('missed_' + tag, '%s finished with exit status %s and no report, but a seeded walk reaches %s' %
                              (r['config'], r['rc'], ('the deadlock [%s]' % '; '.join(sorted(W_dl)[0])) if W_dl else
                               ('the assertion failure %s' % sorted(W_as)[0]))))
             if not r['reports']:
